@@ -109,6 +109,11 @@ func checkC19(c *Ctx) {
 	// constructors
 	c.checkMultiCtor("O1 constructor", "NewMultiReporter", "multi")
 	c.checkMultiCtor("O1 constructor", "NewMultiCachedReporter", "multiCached")
+	// the children lists never change after construction
+	c.checkSetOnlyAtConstruction("O1 fixed-children", pk, "multi", "reporters", "multiBaseReporters")
+	c.checkSetOnlyAtConstruction("O1 fixed-children", pk, "multiCached", "reporters", "multiBaseReporters")
+	c.checkSetOnlyAtConstruction("O1 fixed-children", pk, "multiMetric", "counters", "gauges", "timers", "histograms")
+	c.checkSetOnlyAtConstruction("O1 fixed-children", pk, "multiHistogramBucket", "multi")
 }
 
 // checkCapsInit: the accumulator starts as {reporting: true, tagging: true} and is what is returned.
